@@ -30,14 +30,20 @@ func (r *Replayer) Witnesses() int { return r.nwit }
 var reHarnessFn = regexp.MustCompile(`(?m)^func (Verif\w+)\(\)`)
 var rePkgClause = regexp.MustCompile(`(?m)^package (\w+)`)
 
-func (r *Replayer) build(dir string) (string, error) {
+func (r *Replayer) build(dir string) (string, error) { return r.buildMode(dir, false) }
+
+func (r *Replayer) buildMode(dir0 string, race bool) (string, error) {
+	dir := dir0
+	if race {
+		dir = dir0 + "|race"
+	}
 	if b, ok := r.bins[dir]; ok {
 		if b == "" {
 			return "", fmt.Errorf("%s", r.errs[dir])
 		}
 		return b, nil
 	}
-	files, _ := filepath.Glob(filepath.Join(dir, "zz_verif_*.go"))
+	files, _ := filepath.Glob(filepath.Join(dir0, "zz_verif_*.go"))
 	var names []string
 	pkg := ""
 	for _, f := range files {
@@ -55,7 +61,7 @@ func (r *Replayer) build(dir string) (string, error) {
 	sort.Strings(names)
 	vrtPath := "vscratch/vrt"
 	modDir := r.c.Mod
-	if strings.HasPrefix(dir, r.c.Repo) {
+	if strings.HasPrefix(dir0, r.c.Repo) {
 		vrtPath = "github.com/vkd/goag/vrt"
 		modDir = r.c.Repo
 	}
@@ -88,13 +94,21 @@ func TestVerifReplay(t *testing.T) {
 	fmt.Println("VRT-DONE")
 }
 `)
-	if err := os.WriteFile(filepath.Join(dir, "zz_verif_replay_test.go"), []byte(sb.String()), 0o644); err != nil {
+	if err := os.WriteFile(filepath.Join(dir0, "zz_verif_replay_test.go"), []byte(sb.String()), 0o644); err != nil {
 		return "", err
 	}
 	bin := filepath.Join(r.c.Scratch, "bin", "replay-"+reNonAlnum.ReplaceAllString(strings.TrimPrefix(dir, r.c.Scratch), "_"))
+	args := []string{"test", "-c", "-vet=off", "-tags", "verif"}
+	if race {
+		args = append(args, "-race")
+	}
 	os.MkdirAll(filepath.Dir(bin), 0o755)
-	rel, _ := filepath.Rel(modDir, dir)
-	out, err := runCmd(modDir, goEnv(), "go", "test", "-c", "-vet=off", "-tags", "verif", "-o", bin, "./"+rel)
+	rel, _ := filepath.Rel(modDir, dir0)
+	env := goEnv()
+	if race {
+		env = append(env, "CGO_ENABLED=1")
+	}
+	out, err := runCmd(modDir, env, "go", append(args, "-o", bin, "./"+rel)...)
 	if err != nil {
 		r.bins[dir] = ""
 		r.errs[dir] = "replay build failed: " + firstLine(out)
@@ -105,7 +119,11 @@ func TestVerifReplay(t *testing.T) {
 }
 
 func (r *Replayer) run(dir, harness string, model map[string]interface{}) (string, error) {
-	bin, err := r.build(dir)
+	return r.runMode(dir, harness, model, false)
+}
+
+func (r *Replayer) runMode(dir, harness string, model map[string]interface{}, race bool) (string, error) {
+	bin, err := r.buildMode(dir, race)
 	if err != nil {
 		return "", err
 	}
@@ -120,6 +138,9 @@ func (r *Replayer) run(dir, harness string, model map[string]interface{}) (strin
 	cmd := exec.Command("timeout", "120", bin, "-test.run", "^TestVerifReplay$", "-test.v")
 	cmd.Dir = dir
 	cmd.Env = append(os.Environ(), "VERIF_REPLAY="+mf, "VERIF_HARNESS="+short)
+	if race {
+		cmd.Env = append(cmd.Env, "VERIF_CONCURRENT=4", "GORACE=halt_on_error=0")
+	}
 	out, _ := cmd.CombinedOutput()
 	return string(out), nil
 }
@@ -131,6 +152,21 @@ func (r *Replayer) Replay(dir string, f sym.Finding) (bool, string) {
 	}
 	if f.Model == nil {
 		return false, "no model"
+	}
+	if f.Kind == "shared-write" {
+		// the per-request closure of the harness runs in four goroutines under the race detector
+		out, err := r.runMode(dir, f.Harness, f.Model, true)
+		if err != nil {
+			return false, "race replay build: " + firstLine(err.Error())
+		}
+		if i := strings.Index(out, "WARNING: DATA RACE"); i >= 0 {
+			rep := out[i:]
+			if len(rep) > 1200 {
+				rep = rep[:1200]
+			}
+			return true, "race detector, 4 goroutines x 50 requests: " + strings.ReplaceAll(rep, "\n", " | ")
+		}
+		return false, "the race detector did not report the write under 4 goroutines x 50 requests"
 	}
 	out, err := r.run(dir, f.Harness, f.Model)
 	if err != nil {
@@ -148,8 +184,6 @@ func (r *Replayer) Replay(dir string, f sym.Finding) (bool, string) {
 		if i := strings.Index(out, "VRT-PANIC:"); i >= 0 {
 			return true, "native run panicked: " + firstLine(out[i:])
 		}
-	case "shared-write":
-		return true, "write-confinement violations are established by the executor's heap monitor (no native observable)"
 	}
 	tail := out
 	if len(tail) > 300 {
